@@ -1,7 +1,12 @@
-//! Conformance drivers (pv-proto). Sub-commands are added per property.
+//! Conformance drivers for the mini-protocol state machines (C23, C24).
+mod agents;
+mod apply;
+
 fn main() {
     let args = pv_core::Args::parse();
     match args.cmd.as_str() {
+        "apply-replay" => apply::replay(&args),
+        "agents-trace" => agents::trace(&args),
         other => pv_core::die(&format!("unknown sub-command {other}")),
     }
 }
